@@ -1,5 +1,5 @@
 """C11 -- memory and filesystem stores agree with a plain list over any history."""
-from engine.spec import CH
+from engine.spec import CH, JOB
 
 H = "props.h_C11"
 F = ["stix2.datastore.memory._add", "stix2.datastore.memory._ObjectFamily.add", "stix2.datastore.memory.MemorySource.get",
@@ -13,7 +13,7 @@ F = ["stix2.datastore.memory._add", "stix2.datastore.memory._ObjectFamily.add", 
 FSS = "os/io calls of stix2.datastore.filesystem and memory replaced by an in-memory file system with POSIX semantics (props/fakefs.py)"
 
 META = {
-    "engines": ["crosshair"],
+    "engines": ["crosshair", "pysym"],
     "level_text": "Bounded model checking of the real MemoryStore and FileSystemStore (on an in-memory file-system stub) against a list model: every "
                   "history of 3 additions drawn from 4 ids (registered lower-case id, registered upper-case id, unregistered custom type kept as a "
                   "dictionary, STIX 2.0 object) x 3 versions, in rotating input forms (object, dict, list, bundle, JSON text), and every history "
@@ -39,4 +39,7 @@ def obligations(tier):
     for p in range(5):
         obls.append(CH("histories2_forms_p%d" % p, H, "hist2_forms", t, mode="E1s", functions=F, stubs=[FSS], env={"VERIF_PART": str(p)},
                        bounds="first add in form %d; 2 adds from 4 ids x 3 versions x 5 forms; unversioned object present; with/without save+load" % p))
+    obls.append(JOB("version_file_name_injective", "props.j_time", "job_filename_injective", 600, functions=F[9:10] + ["stix2.utils.format_datetime"],
+                    stubs=["re.sub of a literal character class modelled as a character filter", "datetime model of props/j_time.py"],
+                    bounds="two stored timestamps, all fields and microseconds symbolic, millisecond/min and millisecond/exact (thorough: also any) settings"))
     return obls
